@@ -28,6 +28,7 @@ type c15Case struct {
 	Selector bool      `json:"canary_selector_pool_x"`
 	Keys     bool      `json:"antiaffinity_zone"`
 	Prev     string    `json:"previous_list"` // empty valid invalid ghost
+	Paused   string    `json:"paused"`        // "", annotation, condition
 }
 
 func c15Build(c c15Case, now time.Time) *w.State {
@@ -88,6 +89,13 @@ func c15Build(c c15Case, now time.Time) *w.State {
 	if c.Prev != "empty" {
 		eds.Status.Canary = &v1.ExtendedDaemonSetStatusCanary{ReplicaSet: "foo-b", Nodes: prev}
 		rsB.Status = v1.ExtendedDaemonSetReplicaSetStatus{Status: "canary", Desired: int32(len(prev))}
+	}
+	switch c.Paused {
+	case "annotation":
+		eds.Annotations = map[string]string{v1.ExtendedDaemonSetCanaryPausedAnnotationKey: "true"}
+	case "condition":
+		at := metav1.NewTime(now.Add(-20 * time.Second))
+		rsB.Status.Conditions = append(rsB.Status.Conditions, v1.ExtendedDaemonSetReplicaSetCondition{Type: v1.ConditionTypeCanaryPaused, Status: corev1.ConditionTrue, Reason: "CrashLoopBackOff", LastTransitionTime: at, LastUpdateTime: at})
 	}
 	st := w.NewState(0, objs...)
 	st.Now = now.Sub(w.Epoch)
@@ -151,7 +159,11 @@ func TestC15(t *testing.T) {
 				for _, sel := range []bool{false, true} {
 					for _, keys := range []bool{false, true} {
 						for _, prev := range []string{"empty", "valid", "invalid", "ghost"} {
-							cases = append(cases, c15Case{append([]c15Node{}, cur...), r, sel, keys, prev})
+							cases = append(cases, c15Case{append([]c15Node{}, cur...), r, sel, keys, prev, ""})
+							if !keys && !sel { // a paused canary is still an active canary: the list must still be completed
+								cases = append(cases, c15Case{append([]c15Node{}, cur...), r, sel, keys, prev, "annotation"})
+								cases = append(cases, c15Case{append([]c15Node{}, cur...), r, sel, keys, prev, "condition"})
+							}
 						}
 					}
 				}
@@ -183,5 +195,5 @@ func TestC15(t *testing.T) {
 	run.Sample(cases[len(cases)/3])
 	run.Assumptions = []string{"a percentage resolves against the number of eligible nodes (= status.desired in the lattice); either base is accepted in the world monitor",
 		"when the reconcile reports an error nothing is required of the list in that step"}
-	exit(run.Finish(fmt.Sprintf("lattice: every vector of 1..%d nodes over 12 node variants (zone a/b, pool label, tainted, restart history) x replicas {1,2,N,N+1,25%%,50%%,100%%} x canary nodeSelector x anti-affinity keys x previous list {none, valid, now-invalid, vanished} through one real ExtendedDaemonSet Reconcile; BFS of canary scenarios with node deletion / tainting / addition while the canary runs; non-trivial = distinct (shape, outcome)", maxN)))
+	exit(run.Finish(fmt.Sprintf("lattice: every vector of 1..%d nodes over 12 node variants (zone a/b, pool label, tainted, restart history) x replicas {1,2,N,N+1,25%%,50%%,100%%} x canary nodeSelector x anti-affinity keys x previous list {none, valid, now-invalid, vanished} x paused {no, by annotation, by replica-set condition} through one real ExtendedDaemonSet Reconcile; BFS of canary scenarios with node deletion / tainting / addition while the canary runs; non-trivial = distinct (shape, outcome)", maxN)))
 }
